@@ -15,8 +15,10 @@ Conventions
   are represented by the value they return.
 * Every place where the code raises is an explicit error: `Err.typeError` (a non-mapping where `pre_process` needs a
   mapping), `Err.validation path` (a `PortValidationError`, raised as `ValueError` by `on_create` and `out`).
-* Raw input mappings are plain dicts (an `AttributesFrozendict` passed *as an input value* for a declared namespace
-  is outside the model: the code raises `TypeError` on the first item assignment).
+* A mapping supplied for a declared namespace may be a plain dict or a frozen one (another process's `inputs.ns`
+  passed on): since the repair 7c12fde `pre_process` completes a copy of every declared level, so both are treated alike
+  (before it, a frozen one raised `TypeError` on the first item assignment and a dict *default* was completed in place).
+  A frozen mapping is not a `dict` for `isinstance` nor for the recursion of `validate_dynamic_ports`.
 -/
 namespace Ports
 
